@@ -29,7 +29,10 @@ RULE = ("TLC enumerates every level instance of the reference world (every prefi
         "network, each lanelet, stop line, sign, light, each obstacle of each role, predictions, trajectory, stored "
         "occupancies, shapes of each kind, states, planning problem set, planning problems, goal, goal states) x the whole "
         "rotation table (4 axis rotations, 32 Pythagorean angles, 10 small angles on both sides of 0.05 rad, with -1/0/+1 full "
-        "turns inside [-2pi, 2pi]) at t = (3,-2); x 14 sampled tokens at t = (0,0) and, with both undo forms, t = (-50,70); "
+        "turns inside [-2pi, 2pi]) at t = (3,-2) for the two roots, and below them axis + (3,4,5) octants + all small angles + "
+        "14 sampled tokens; x 14 sampled tokens at t = (0,0) and, with the two-step undo (single-call undo: 4 tokens), at "
+        "t = (-50,70); the state-class universes (18 classes by attribute combination: stand-alone, as trajectory state "
+        "incl. the occupancy reported after the motion, as goal state) x every level x the sampled tokens; "
         "the 15 proper role subsets x 4 tokens at scenario level (thorough: targets x 3 translations x whole table, undo "
         "none / two-step / single-call by translation); each case = 1 call event + 1 event per component kind + 1 per "
         "derived quantity (+ 1 per kind after the undo); plus seeded "
@@ -73,11 +76,70 @@ def _th(c, s):
     return math.atan2(s, c)
 
 
+# state classes by attribute combination: mirror of Transform!StateClasses (checked by the trace spec: world-mismatch)
+PARTS = ("states", "statetraj", "stategoal")
+CLASSES = [("initial", "exact", "x", 1), ("ks", "exact", "x", 1), ("kst", "exact", "x", 1), ("st", "exact", "x", 1),
+           ("std", "exact", "x", 1), ("mb", "exact", "xy", 1), ("pm", "derived", "xy", 1), ("extpm", "exact", "x", 1),
+           ("lateral", "exact", "none", 0),
+           ("c_e_xy", "exact", "xy", 1), ("c_e_x", "exact", "x", 1), ("c_e_n", "exact", "none", 1),
+           ("c_n_xy", "none", "xy", 1), ("c_n_x", "none", "x", 1), ("c_n_n", "none", "none", 1),
+           ("c_i_xy", "interval", "xy", 1), ("c_i_x", "interval", "x", 1), ("c_i_n", "interval", "none", 1)]
+_ORI_LIST = [(3, 4, 5), (4, 3, 5), (0, 1, 1), (-3, 4, 5), (4, -3, 5), (-1, 0, 1)]
+_VEL_LIST = [(3, 4), (4, -3), (-4, 3), (-3, -4)]
+GOAL_IDX = [1, 2, 3, 4, 5, 6, 8, 7, 17]
+
+
+def _cls_state(i, t, goal=False):
+    """State of class i (1-based index into CLASSES) with the data of Transform!SPos / SOris / SVels."""
+    from crv import gamma as g
+    cid, ori, vel, pos = CLASSES[i - 1]
+    name = cid if not cid.startswith("c_") else "custom"
+    p = (2 * i - 19, 10 - i)
+    if goal:
+        has_ori = ori != "derived"
+        return g.state_by_class(name, (0, 10), g.circle(1, p), (_th(4, 3), _th(3, 4)) if has_ori else None, (0.0, 10.0))
+    o = None
+    if ori == "exact":
+        c, s_, _ = _ORI_LIST[i % 6]
+        o = _th(c, s_)
+    elif ori == "interval":
+        o = (_th(4, 3), _th(3, 4))
+    vx = vy = None
+    if vel == "xy":
+        vx, vy = _VEL_LIST[i % 4]
+    elif vel == "x":
+        vx = i + 1
+    return g.state_by_class(name, t, p if pos else None, o, vx, vy)
+
+
+def _has_heading(i):
+    _, ori, vel, pos = CLASSES[i - 1]
+    return pos == 1 and (ori == "exact" or (ori in ("none", "derived") and vel == "xy"))
+
+
+def _build_part(mix):
+    from crv import gamma as g
+    from commonroad.planning.goal import GoalRegion
+    from commonroad.planning.planning_problem import PlanningProblem
+    sc, alone, problems = g.scenario(), {}, []
+    if "states" in mix:
+        alone = {CLASSES[i - 1][0]: _cls_state(i, 1) for i in range(1, len(CLASSES) + 1)}
+    if "statetraj" in mix:
+        for i in range(1, len(CLASSES) + 1):
+            if CLASSES[i - 1][3]:
+                p = (2 * i - 19, 10 - i)
+                sc.add_objects(g.dynamic_obstacle_from(100 + i, g.rect(2, 1), g.init_state(p[0], p[1] - 1, 0.0),
+                                                       g.trajectory_prediction_from_states(g.rect(2, 1), [_cls_state(i, 1)])))
+    if "stategoal" in mix:
+        problems = [PlanningProblem(41, g.init_state(0, 0, 0.0), GoalRegion([_cls_state(i, None, goal=True) for i in GOAL_IDX]))]
+    return sc, g.planning_problem_set(problems), alone
+
+
 def model_check(ctx):
     # the model has no actions (one state per case, laws are state predicates): coverage only in the thorough tier
     ctx.mc("MC_Transform", "MC_Transform_t.cfg" if ctx.thorough else "MC_Transform.cfg", coverage=ctx.thorough, timeout=3000)
-    ctx.mc_expect("MC_Transform", "DEV_Transform_1.cfg", "LawImplRigid")
-    ctx.mc_expect("MC_Transform", "DEV_Transform_2.cfg", "LawImplConforms")
+    ctx.mc_expect("MC_Transform", "DEV_Transform_1.cfg", "G_LawImplRigid")
+    ctx.mc_expect("MC_Transform", "DEV_Transform_2.cfg", "G_LawImplConforms")
 
 
 # ---- cases ------------------------------------------------------------------------------------------------------
@@ -120,11 +182,18 @@ def cases(ctx):
     sample = {(1, 0, 1, 0), (0, 1, 1, 0), (-1, 0, 1, -1), (3, 4, 5, 0), (-20, -21, 29, 0), (5, -12, 13, 1), (399, 40, 401, 0),
               (1520, -78, 1522, 0), (1599, 80, 1601, 0), (1599, -80, 1601, 0), (9999, 200, 10001, 0), (1599, 80, 1601, -1),
               (1, 0, 1, 1), (1680, -82, 1682, 1)}
+    part_targets = sorted({(_key(c["tgt"]), c["mix"][0]) for c in cs if set(c["mix"]) & set(PARTS)})
+    for _ in range(1200 if ctx.thorough else 300):       # float angles on the state-class universes
+        tgt, part = rng.choice(part_targets)
+        cs.append({"tgt": [list(p) for p in tgt], "t": [rng.randint(-60, 60), rng.randint(-60, 60)], "rot": [0, 0, 0, 0],
+                   "angle": _rnd_angle(rng), "mix": [part], "undo": "none", "steps": [], "mode": "flt", "level": tgt[-1][0]})
     out = []
     for i, c in enumerate(cs):
         out.append(dict(c, variant="cold"))
+        if set(c["mix"]) & set(PARTS):          # no shapes with exported geometry there: cold only
+            continue
         if (ctx.thorough or len(c["mix"]) < 4 or i % 5 == 0
-                or (c["mode"] == "tok" and tuple(c["rot"]) in sample and c["t"] != [0, 0])):
+                or (c["mode"] == "tok" and tuple(c["rot"]) in sample and c["t"] != [0, 0] and c["undo"] != "one")):
             out.append(dict(c, variant="warm"))
     # aliasing variant: lanelets 1 and 3 hold one ndarray object as common boundary; every case that addresses the
     # scenario, the lanelet network or a lanelet is run on that world as well (same lattice points, same expectations)
@@ -158,6 +227,8 @@ def build(mix, alias="none"):
     (same lattice points, only the object identity differs; the Lanelet constructor stores the array it is given)."""
     import numpy as np
     from crv import gamma as g
+    if set(mix) & set(PARTS):
+        return _build_part(mix)
     from commonroad.planning.goal import GoalRegion
     from commonroad.planning.planning_problem import PlanningProblem
     from commonroad.scenario.obstacle import EnvironmentObstacle, ObstacleType
@@ -209,7 +280,7 @@ def build(mix, alias="none"):
     goal32 = GoalRegion([g.goal_state(g.rect(2, 2, (-6, -6), 0.0))])
     pps = g.planning_problem_set([PlanningProblem(31, g.init_state(0, 1, 0.0), goal31),
                                   PlanningProblem(32, g.init_state(-3, -3, _th(0, -1)), goal32)])
-    return sc, pps
+    return sc, pps, {}
 
 
 # ---- alpha: stored points / orientations and derived quantities, through public accessors ---------------------------
@@ -281,10 +352,27 @@ def walk(world, ov=None, mode="full"):
     from commonroad.common.util import AngleInterval
     from commonroad.geometry.shape import Shape
     from commonroad.prediction.prediction import SetBasedPrediction, TrajectoryPrediction
-    sc, pps = world
+    sc, pps, alone = world
     ov = ov or {}
     comps, der = [], {}
     full = mode == "full"
+
+    def vels_of(st):
+        """stored velocity vector (velocity, velocity_y) of a state; velocity_y = 0 when only the speed is stored"""
+        names = st.attributes
+        vx = getattr(st, "velocity", None) if "velocity" in names else None
+        vy = getattr(st, "velocity_y", None) if "velocity_y" in names else None
+        if not isinstance(vx, (int, float)):
+            return []
+        return [(vx, vy if isinstance(vy, (int, float)) else 0.0)]
+
+    def class_state(kind, path, st):
+        st = ov.get(path, st)
+        stored_ori = None if isinstance(getattr(type(st), "orientation", None), property) else getattr(st, "orientation", None)
+        oris = [] if stored_ori is None else \
+            ([stored_ori.start, stored_ori.end] if isinstance(stored_ori, AngleInterval) else [stored_ori])
+        pos = getattr(st, "position", None)
+        comps.append([kind, path, [] if pos is None else [tuple(pos)], oris, vels_of(st)])
 
     def shape_comp(kind, path, shape, name, group_kind=None):
         k, pts, oris, corners = _shape_data(shape, name, der, mode)
@@ -296,7 +384,8 @@ def walk(world, ov=None, mode="full"):
     def state(path, st, kp, ko, group_kind=None):
         st = ov.get(path, st)
         name = _pname(path)
-        if isinstance(getattr(type(st), "orientation", None), property):      # point-mass state: the heading is derived
+        derived_ori = isinstance(getattr(type(st), "orientation", None), property)
+        if derived_ori and not isinstance(getattr(st, "position", None), Shape):   # point-mass state: derived heading
             comps.append(["pm_position", path, [tuple(st.position)], []])
             comps.append(["pm_heading", path, [], [st.orientation]])
             return
@@ -313,7 +402,7 @@ def walk(world, ov=None, mode="full"):
                 if getattr(st, "orientation", None) is not None and not isinstance(st.orientation, AngleInterval):
                     oris = [st.orientation]
                 comps.append([kp, path, pts, oris])
-        if isinstance(getattr(st, "orientation", None), AngleInterval):
+        if not derived_ori and isinstance(getattr(st, "orientation", None), AngleInterval):
             comps.append([ko, path, [], [st.orientation.start, st.orientation.end]])
             if full:
                 der.setdefault("interval_length", []).append((name + "/orientation", st.orientation.length))
@@ -339,8 +428,19 @@ def walk(world, ov=None, mode="full"):
         if mode == "touch":
             _touch(ob.obstacle_shape)
         state(p + (ST,), ob.initial_state, "static_init", "static_uncertain_ori")
+    for cid in sorted(alone, key=lambda c: [x[0] for x in CLASSES].index(c)):          # stand-alone states: own roots
+        class_state("st/" + cid, (("state", cid),), alone[cid])
     for ob in sorted(sc.dynamic_obstacles, key=lambda x: x.obstacle_id):
         p = (SC, ("obstacle_dynamic", str(ob.obstacle_id)))
+        if ob.obstacle_id > 100:                                   # one obstacle per state class (part "statetraj")
+            i = ob.obstacle_id - 100
+            state(p + (ST,), ob.initial_state, "dynamic_init", "uncertain_ori")
+            class_state("tr/" + CLASSES[i - 1][0], p + (PRED, TRAJ, ("state", "0")), ob.prediction.trajectory.state_list[0])
+            if full and _has_heading(i):        # what the obstacle reports AFTER the motion (never queried before it)
+                shp = ob.occupancy_at_time(ob.prediction.trajectory.state_list[0].time_step).shape
+                comps.append(["tr.occ/" + CLASSES[i - 1][0], p + (PRED, TRAJ, ("occupancy_query", "-")),
+                              [tuple(shp.center)], [shp.orientation]])
+            continue
         if mode == "touch":
             _touch(ob.obstacle_shape)
         unc = ob.initial_state.is_uncertain_position
@@ -377,7 +477,9 @@ def walk(world, ov=None, mode="full"):
 
 def resolve(world, path):
     """Target path -> the real object whose translate_rotate is called (public accessors only)."""
-    sc, pps = world
+    sc, pps, alone = world
+    if path[0][0] == "state":
+        return alone[path[0][1]]
     cur = sc if tuple(path[0]) == SC else pps
     for lk, i in path[1:]:
         if lk == "lanelet_network":
@@ -462,6 +564,26 @@ def _pt_entry(case, p0, p1):
     return [x, y, 0, 0, 1 if ok else 0, un]
 
 
+def _vel_entry(case, v0, v1):
+    """velocity vector before (integers) / after: nearest integers to den * v' + closeness flag (tokens) or 'is v turned
+    by the angle' flag (float angles); un = bit-for-bit unchanged.  The spec decides which of the two it expects."""
+    vx, vy = _int(v0[0]), _int(v0[1])
+    if v1 is None or not _finite(v1[0], v1[1]):
+        return [vx, vy, 0, 0, 0, 0]
+    x1, y1 = float(v1[0]), float(v1[1])
+    un = 1 if (x1 == float(v0[0]) and y1 == float(v0[1])) else 0
+    scale = 1 + abs(vx) + abs(vy)
+    if case["mode"] == "tok":
+        den = case["rot"][2]
+        tol = Fraction(1, 10 ** 9) * den * scale
+        nx, fx = _near_int(Fraction(x1) * den, tol)
+        ny, fy = _near_int(Fraction(y1) * den, tol)
+        return [vx, vy, nx, ny, fx & fy, un]
+    a = case["angle"]
+    ex, ey = math.cos(a) * vx - math.sin(a) * vy, math.sin(a) * vx + math.cos(a) * vy
+    return [vx, vy, 0, 0, 1 if (abs(x1 - ex) <= 1e-9 * scale and abs(y1 - ey) <= 1e-9 * scale) else 0, un]
+
+
 def _ori_entry(case, th0, th1):
     c, s, d = _tok(th0)
     if th1 is None or not _finite(th1):
@@ -528,7 +650,7 @@ def execute(case):
     world = build(mix, alias)
     before, _ = walk(world, mode="touch" if variant == "warm" else "primary")
     tcomps, der0 = walk(twin, mode="full")
-    before += [c for c in tcomps if c[0].startswith("rect_corners/")]
+    before += [c for c in tcomps if c[0].startswith("rect_corners/") or c[0].startswith("tr.occ/")]
     ov = {}
     exc = _apply(world, ov, path, case["t"], angle_of(case))
     after, der1 = walk(world, ov, mode="full")
@@ -536,21 +658,26 @@ def execute(case):
     base = {"tgt": [list(p) for p in path], "t": list(case["t"]), "rot": list(case["rot"]), "mix": list(mix)}
     kinds = sorted({c[0] for c in before})
     ev = [dict(op="call", tgt=base["tgt"], mix=list(mix), exc=exc, kinds=kinds, level=level,
-               sig="%s/mix=%s/%s%s" % (level, "".join(r[0] for r in ROLES if r in mix) or "-", variant,
+               sig="%s/mix=%s/%s%s" % (level, "".join(r[0] for r in ROLES if r in mix) or "+".join(mix) or "-", variant,
                                "/" + alias if alias != "none" else ""))]
     for k in kinds:
         comps = []
-        for kind, p, pts, oris in before:
+        for bc in before:
+            kind, p, pts, oris = bc[:4]
+            vels = bc[4] if len(bc) > 4 else []
             if kind != k:
                 continue
             a = amap.get((kind, p))
             apts = a[2] if a else []
             aoris = a[3] if a else []
+            avels = a[4] if (a and len(a) > 4) else []
             comps.append([[list(q) for q in p],
                           [_pt_entry(case, q, apts[i] if i < len(apts) and len(apts) == len(pts) else None)
                            for i, q in enumerate(pts)],
                           [_ori_entry(case, o, aoris[i] if i < len(aoris) and len(aoris) == len(oris) else None)
-                           for i, o in enumerate(oris)]])
+                           for i, o in enumerate(oris)],
+                          [_vel_entry(case, v, avels[i] if i < len(avels) and len(avels) == len(vels) else None)
+                           for i, v in enumerate(vels)]])
         ev.append(dict(base, op="tr", mode=case["mode"], kind=k, comps=comps, sig="%s/%s/%s" % (level, k, cls)))
     for q in sorted(der0):
         m1 = dict(der1.get(q, []))
@@ -564,7 +691,8 @@ def execute(case):
         bmap = {(c[0], c[1]): c for c in back}
         for k in kinds:
             comps = []
-            for kind, p, pts, oris in before:
+            for bc in before:
+                kind, p, pts, oris = bc[:4]
                 if kind != k:
                     continue
                 b = bmap.get((kind, p))
